@@ -50,6 +50,7 @@ def solver_check(fn):
         R.add(grid_obs(SA))
         R.add(dtype_obs(SA))
         R.add(index_obs(SA))
+        R.add(level_list_obs(SA))
         R.add(argument_obs(SA))
         R.add(zero_halo_obs(P))
         R.add(layout_obs(SA))
@@ -174,6 +175,34 @@ def index_obs(SA):
     if not seen:
         return [req_ob("R-INDEX", site, "no array is read at an index that can be negative for legal inputs (%d paths)" % n, True)]
     return [req_ob("R-INDEX", site, "no array is read at an index that can be negative for legal inputs", False, detail="%s: %s" % k, key={"where": k[0]}) for k in sorted(seen)]
+
+
+def level_list_obs(SA):
+    """R-LVL-ORDER (structural part, decided on every run whether or not its outputs can be modelled): the sweep writes slot
+    `lvl` when `i in levels` and then advances `lvl` - one slot per distinct level, in ascending node order.  The list it tests
+    must therefore be free of repetitions and ascending: np.unique's result is, a merely sorted copy or the caller's own list is not"""
+    seen = {}
+    n = 0
+    for key, (S, res) in SA.runs.items():
+        for r in res:
+            for L in r.loops:
+                for ls in getattr(L, "level_stores", ()):
+                    cont = getattr(ls.guard, "container", None)
+                    if not isinstance(cont, Arr):
+                        continue
+                    n += 1
+                    if cont.meta.get("sorted_unique"):
+                        continue
+                    if cont.meta.get("sorted") or cont.meta.get("hash_order") or isinstance(cont, RS.SymArr) or cont.meta.get("param") or cont.meta.get("alias_of_param"):
+                        what = ("a sorted copy that keeps repeated entries (np.sort)" if cont.meta.get("sorted") else
+                                "the distinct levels in the iteration order of a set (ascending only by accident of the hash table)" if cont.meta.get("hash_order") else
+                                "the caller's own list %s (any order, repetitions allowed)" % (cont.name or ""))
+                        seen.setdefault((L.function, ls.array, what), key)
+    site = "src/bldfm/solver.py::level sweep"
+    if not seen:
+        return [req_ob("R-LVL-ORDER", site, "every list tested by the slot-counter idiom is the sorted list of distinct levels (%d guarded stores)" % n, True if n else None)]
+    return [req_ob("R-LVL-ORDER", site, "every list tested by the slot-counter idiom is the sorted list of distinct levels", False,
+                   detail="%s: the store into %s is guarded by membership in %s: a repeated level fills one slot and leaves the next one empty" % (k[0], k[1], k[2]), key={"array": k[1]}) for k in sorted(seen)]
 
 
 def output_gaps(SA):
